@@ -788,6 +788,13 @@ def c02_compare(case, kinds, req, m_req, d, table, stats, report, viol):
         if ptxt is None:
             report(viol, "c02:no-path:%s" % kinds, "%r: result %s has no path" % (text, a), dict(case, prop="C02"))
             continue
+        # the model's path sections denote the same segments as the reported path
+        msegs = with_timer(lambda: parse_segments(dotted(mr.get("path") or [])))
+        isegs = with_timer(lambda: parse_segments(ptxt))
+        if msegs != isegs:
+            report(viol, "c02:path-segments-differ-from-model:%s" % kinds,
+                   "%r: result %s reports path %r; the model expects %r" % (text, a, ptxt, dotted(mr.get("path") or [])),
+                   dict(case, impl=ir, model=mr, prop="C02-model"))
         stats["requeries"] += 1
         rq, rd, rtable = run_query(case["doc"], ptxt, "req")
         got = None if rq.get("err") else [addr_only(x) for x in rq["res"]]
